@@ -39,6 +39,7 @@ NPtr        == [k |-> "ptr"]
 NCond(c, a, b) == [k |-> "cond", c |-> c, a |-> a, b |-> b]
 NArr(xs)    == [k |-> "arr", xs |-> xs]
 NMap(ks, vs) == [k |-> "map", ks |-> ks, vs |-> vs]   \* ks: sequence of key strings
+NConst(v)   == [k |-> "const", v |-> v]               \* a value computed at compile time (optimizer output only)
 
 ---------------------------------------------------------------------------
 (* Rendering: the source text of a tree, parenthesised so that the tree    *)
@@ -72,6 +73,7 @@ Src(t) ==
     [] t.k = "str"   -> "\"" \o t.s \o "\""
     [] t.k = "id"    -> t.name
     [] t.k = "ptr"   -> "#"
+    [] t.k = "const" -> "<const>"
     [] t.k = "un"    -> (IF t.op = "not" THEN "not " ELSE t.op) \o Par(t.x)
     [] t.k = "bin"   -> Par(t.l) \o " " \o t.op \o " " \o Par(t.r)
     [] t.k = "prop"  -> Base(t.x, t.ns) \o (IF t.ns THEN "?." ELSE ".") \o t.name
@@ -90,7 +92,7 @@ Src(t) ==
 RECURSIVE Size(_), SizeList(_, _)
 SizeList(ts, i) == IF i > Len(ts) THEN 0 ELSE Size(ts[i]) + SizeList(ts, i + 1)
 Size(t) ==
-  CASE t.k \in {"nil", "bool", "int", "float", "str", "id", "ptr"} -> 1
+  CASE t.k \in {"nil", "bool", "int", "float", "str", "id", "ptr", "const"} -> 1
     [] t.k = "none" -> 0
     [] t.k = "un"   -> 1 + Size(t.x)
     [] t.k = "bin"  -> 1 + Size(t.l) + Size(t.r)
@@ -107,7 +109,7 @@ Size(t) ==
 
 (* the child trees of a node, in source order *)
 Kids(t) ==
-  CASE t.k \in {"nil", "bool", "int", "float", "str", "id", "ptr", "none"} -> <<>>
+  CASE t.k \in {"nil", "bool", "int", "float", "str", "id", "ptr", "none", "const"} -> <<>>
     [] t.k \in {"un", "prop", "len"} -> <<t.x>>
     [] t.k = "bin"  -> <<t.l, t.r>>
     [] t.k = "meth" -> <<t.x>> \o t.args
@@ -163,7 +165,7 @@ RECURSIVE Mentions(_), MentionsList(_, _)
 MentionsList(ts, i) == IF i > Len(ts) THEN {} ELSE Mentions(ts[i]) \cup MentionsList(ts, i + 1)
 Mentions(t) ==
   CASE t.k = "id" -> {t.name}
-    [] t.k \in {"nil", "bool", "int", "float", "str", "ptr", "none"} -> {}
+    [] t.k \in {"nil", "bool", "int", "float", "str", "ptr", "none", "const"} -> {}
     [] t.k = "un"   -> Mentions(t.x)
     [] t.k = "bin"  -> Mentions(t.l) \cup Mentions(t.r)
     [] t.k = "prop" -> Mentions(t.x)
@@ -370,6 +372,7 @@ Eval(t, rho, st, cx) ==
     [] t.k = "str"   -> R(Str(t.s), st)
     [] t.k = "id"    -> R(rho[t.name], st)
     [] t.k = "ptr"   -> R(cx.els[Len(cx.els)], st)       \* the element of the innermost collection
+    [] t.k = "const" -> R(t.v, st)
     [] t.k = "un"    -> LET a == Eval(t.x, rho, st, cx)
                         IN IF IsErr(a.v) THEN a ELSE R(UnOp(t.op, a.v), a.st)
     [] t.k = "bin" /\ "Dev_InRangeRewrite" \in cx.dv /\ t.op \in {"in", "not in"}
